@@ -9,7 +9,7 @@ from ..core import pyfacts as pf
 from ..core import sibling
 from ..core.match import canon, call_arg, txt
 from ..core.source import AnchorMissing
-from .common import ACHAIN, GOOFIT, MDECAY, ckey, enclosing, fn, returns, stmt_of, where
+from .common import ACHAIN, GOOFIT, MDECAY, ckey, const_value, enclosing, fn, returns, stmt_of, where
 
 PROP = "C18"
 FILES = [MDECAY, GOOFIT, ACHAIN]
@@ -290,7 +290,11 @@ def c18_4(ctx, ss):
     for r in rl:
         if "index(self.spinfactor)" in txt(r.value):
             conds = [(txt(e), pol) for kind, e, pol in guards.path_conditions(lf.node, r) if kind == "if"]
-            okL = conds == [("self.spinfactor", True)] and txt(r.value) == "'S P D F'.split().index(self.spinfactor)"
+            try:
+                table = const_value(ss, ACHAIN, r.value.func.value) if isinstance(r.value, ast.Call) and isinstance(r.value.func, ast.Attribute) and r.value.func.attr == "index" else None
+            except ValueError:
+                table = None
+            okL = conds == [("self.spinfactor", True)] and table is not None and list(table) == ["S", "P", "D", "F"] and [txt(a) for a in r.value.args] == ["self.spinfactor"]
     (ctx.holds if okL else ctx.violation)("C18.4", f"{ACHAIN}:AmplitudeChain.L", where(lf, lf.node),
                                           "a written spin tag S/P/D/F gives L = 0/1/2/3" if okL else "the orbital momentum is no longer the index of the written spin tag in 'S P D F'")
     # spin-factor table
@@ -354,6 +358,22 @@ def c18_5(ctx, ss, rule="C18.5", methods=None):
                 fl = flow_of(ss, f_)
                 rows = []
                 for x in pf.walk_no_nested(f_.node):
+                    is_effect = (isinstance(x, ast.Expr) and isinstance(x.value, ast.Call)) or isinstance(x, ast.AugAssign) or \
+                        (isinstance(x, ast.Assign) and not isinstance(x.targets[0], (ast.Name, ast.Tuple)))
+                    if is_effect:
+                        # statements that change an object (`xs.append(v)`, `x += v`, `o.a = v`) are part of what the function does
+                        conds = set()
+                        for kind, e, pol in guards.path_conditions(f_.node, x):
+                            if kind == "if":
+                                for a_, p_ in guards.canon_cond(fl.expand(e), pol):
+                                    conds.add((sibling._norm(txt(a_), REN), p_))
+                        body = x.value if isinstance(x, ast.Expr) else x
+                        if isinstance(x, ast.Expr):
+                            c_ = x.value
+                            t_ = txt(c_.func) + "(" + ", ".join(txt(fl.expand(a_)) for a_ in c_.args) + ")"
+                        else:
+                            t_ = txt(x.targets[0] if isinstance(x, ast.Assign) else x.target) + f" {type(getattr(x, 'op', None)).__name__}= " + txt(fl.expand(x.value))
+                        rows.append(("effect", tuple(sorted(conds)), sibling._norm(t_, REN)))
                     if isinstance(x, (ast.Return, ast.Raise)):
                         conds = set()
                         for kind, e, pol in guards.path_conditions(f_.node, x):
@@ -374,6 +394,17 @@ def c18_5(ctx, ss, rule="C18.5", methods=None):
         ha, hb = sibling.holes(fa.node, REN), sibling.holes(fb.node, REN)
         ds = sibling.diff(sa, sb)
         dh = [x for x in sibling.diff(ha, hb) if x not in ALLOWED_HOLES]
+        if ds or dh:
+            # the statement-by-statement comparison differs: is it only the LAYOUT of one side (renamed locals, a hoisted
+            # sub-expression, .format vs f-string)?  Compare what the two functions emit, after expansion of their locals.
+            from ..core.defuse import flow_of
+            ea, eb = sibling.emission_skeleton(fa.node, flow_of(ss, fa), REN), sibling.emission_skeleton(fb.node, flow_of(ss, fb), REN)
+            def _lang(t):      # the differences the two target languages require (ALLOWED_HOLES): int(L), True/true
+                return str(t).replace("int(self.L)", "self.L").replace("'True'", "'true'").replace("'False'", "'false'")
+            de = [x for x in sibling.diff(ea, eb) if _lang(x[0]) != _lang(x[1])]
+            if not de:
+                ctx.holds(rule, k, where(fb, fb.node), f"{m}: the two generators emit the same holes under the same conditions in the same order ({len(ea)} emission steps; layout differs)", len(ea))
+                continue
         dl = [] if (ds or dh) else [x for x in sibling.logic_diff(fa.node, fb.node, REN) if x not in ALLOWED_LOGIC]
         if dl:
             ctx.violation(rule, k, where(fb, fb.node), f"{m}: the two generators compute different things outside the target-language text: C++ `{dl[0][0][:80]}` vs Python `{dl[0][1][:80]}`")
